@@ -1,3 +1,6 @@
+// world.go: the scripted environment of one tunnel (two ends with fake net.Conn connections whose
+// Read / Write calls are gates, a scripted CloudControlAPI) and the execution of one behaviour on a
+// real SessionManager / tunnel.Bridge.
 package main
 
 import (
@@ -10,6 +13,7 @@ import (
 	"sync/atomic"
 	"time"
 
+	"tunnox-core/internal/cloud/constants"
 	"tunnox-core/internal/cloud/models"
 	"tunnox-core/internal/cloud/stats"
 	"tunnox-core/internal/packet"
@@ -20,9 +24,9 @@ import (
 )
 
 const (
-	watchdog = 5 * time.Second // DESIGN.md Appendix B: "bounded time" = 5 s
-	gateWait = 3 * time.Second // a modelled copier step must arrive at its gate within this (limiter waits are <= 2 s)
-	copyBuf  = 32 * 1024       // constants.CopyBufferSize
+	watchdog = 5 * time.Second               // DESIGN.md Appendix B: "bounded time" = 5 s
+	gateWait = 3 * time.Second               // a modelled copier step must arrive at its gate within this (limiter waits are <= 2 s)
+	copyBuf  = int(constants.CopyBufferSize) // the bridge's copy buffer (32 KiB)
 )
 
 var (
